@@ -143,6 +143,13 @@ def directed():
     # del + add of another descriptor + negative return inside one callback (slot reuse)
     P.append(["Body 1 PollDel 100 ; PollAdd new 101 1 1 0 0", "PollAdd 1 100 1 1 -1 1", "Run", "Poll T 0 0 0 R 100 1", "Poll T 0 0 0 R 101 1",
               "Poll T 0 0 0 R 101 1"] + ["Poll T 0 0 0"] * 12)
+    # a refused second add of a registered descriptor (EEXIST) reuses the tombstone slot of an earlier registration;
+    # the delete that follows must still remove the live registration (repaired by 1d85c36)
+    P.append(["Body 1 PollDel 101 ; SigAdd new 10 2 0", "Body 2 PollAdd new 101 2 1 0 0", "PollAdd 3 100 1 1 -1 3", "PollAdd 4 101 2 1 0 4",
+              "PollDel 100", "PollAdd 1 100 2 1 0 1", "JobAdd 4 2 2", "Run", "Poll T 0 0 0 R 100 1 102 1", "Poll T 0 0 0 R 101 5 S 12"] +
+             ["Poll T 0 0 0"] * 6)
+    P.append(["PollAdd 1 100 1 1 0 0", "PollAdd 2 101 1 1 0 0", "PollDel 100", "Run", "Poll T 0 0 0", "Poll T 0 0 0",
+              "PollAdd 3 101 2 1 0 0", "PollDel 101", "Run", "Poll T 0 0 0 R 101 1", "Poll T 0 0 0 R 101 1"] + ["Poll T 0 0 0"] * 4)
     # stale timer handle after the slot was reused
     P.append(["TimerAdd 1 1 0 0 1000000 0", "Run"] + ["Poll T 0 0 0"] * 6 + ["TimerAdd 2 1 0 5 0 0", "TimerQuery 1", "TimerDel 1", "TimerQuery 2",
               "Run"] + ["Poll T 0 0 0"] * 8)
